@@ -113,6 +113,13 @@ def normalize_real(op_json, real):
         out['then'] = [normalize_real(sub, r) for sub, r in zip(op_json.get('then', []), real.get('then', []))]
         return out
     if op == 'analyze_pragma': return {'range': real.get('range')}
+    if op == 'errors':
+        out = []
+        for e in real['errors']:
+            rid = e['rid'] or 0
+            if e['cat'] == 'module' and e['kind'] != 'MissingDynamic': rid = 0
+            out.append({'cat': e['cat'], 'specifier': e['specifier'] if e['specifier'] is not None else 255, 'rid': rid, 'kindname': e['kind']})
+        return {'errors': out}
     if op in ('validate', 'valid'):
         if real.get('ok'): return {'ok': True}
         e = real['error']
@@ -121,6 +128,15 @@ def normalize_real(op_json, real):
         return {'ok': False, 'error': {'cat': e['cat'], 'specifier': e['specifier'] if e['specifier'] is not None else 255, 'rid': rid, 'kindname': e['kind']}}
     return real
 def normalize_decoded(op_json, d, mir=None):
+    if op_json['op'] == 'errors':
+        out = []
+        for e in d['errors']:
+            e = dict(e)
+            if mir is not None:
+                names = mir.enums['ModuleErrorKind'] if e['cat'] == 'module' else mir.enums['ResolutionError']
+                e['kindname'] = names[e['kind']] if e['kind'] < len(names) else '?'
+            e.pop('kind', None); out.append(e)
+        return {'errors': out}
     if op_json['op'] in ('validate', 'valid') and not d.get('ok'):
         e = dict(d['error'])
         if mir is not None:
@@ -222,5 +238,5 @@ def run_queries(base, queries, mir, timeout_ms, fast_check, prop, cube_name, kno
                 ok, det = replay_model(q, m2, mir, fast_check); rec['replayed'] += 1
                 if ok: rec['known'].append({'signature': sig, 'query': q.name, 'what': active[sig].get('what', ''), 'example': {'world': det['world'], 'ops': det['ops'], 'real': det['real']}})
                 else: rec['inconclusive'].append(f'known finding {sig} / {q.name}: model does not reproduce natively: ' + json.dumps(det)[:1500])
-            elif r2 == 'unknown': rec['inconclusive'].append(f'known finding {sig} / {q.name}: solver timeout')
+            elif r2 == 'unknown': rec.setdefault('notes', []).append(f'known finding {sig} not re-confirmed through {q.name} in this run (solver timeout while searching inside the signature; the exclusion itself is unaffected)')
     return rec
